@@ -716,6 +716,34 @@ KEEP_AGENTS = [
     ('R20-2', 'DIFF', 'R_C20_2.diff', None, ALL, 'extract helper (first child by tag), guard clause with continue, deferred-init if/else -> match expression, mutable struct patch-up -> temporaries + single struct literal: collect_joints in src/urdf.r'),
     ('R20-3', 'DIFF', 'R_C20_3.diff', None, ALL, 'index loop -> iter().enumerate(), 1-based match -> 0-based match, duplicated nested fn -> one shared helper, float-literal pattern match -> if/else chain, if/else -> if expression + guard: populate_op'),
     ('R20-4', 'DIFF', 'R_C20_4.diff', None, ALL, 'if-let/else -> let-else with early return, ok_or/? -> match, repeated code -> local closure, get/insert -> HashMap entry API, duplicated struct construction -> delegation to sibling methods: src/urdf.'),
+    ('R08-5', 'DIFF', 'R_C08_5.diff', None, ALL, 'extract helper (shared constructor) + Option combinator -> match through the accessor: OPWKinematics::new and new_with_constraints now both delegate to a private with_optional_constraints(parameters, '),
+    ('R08-6', 'DIFF', 'R_C08_6.diff', None, ALL, 'match -> if-let / map_or; filter-clone-collect of a borrowed Vec -> in-place retain on the owned Vec: OPWKinematics::filter_constraints_compliant keeps the owned solutions vector and calls retain(|s| '),
+    ('R08-7', 'DIFF', 'R_C08_7.diff', None, ALL, 'iterator chains -> explicit loops with early return; mutable temporary -> immutable lets with if-expression: Constraints::compliant is an index loop over the six joints returning false at the first jo'),
+    ('R08-8', 'DIFF', 'R_C08_8.diff', None, ALL, 'extract shared tail helper; index loops -> iter_mut/zip; deferred-init let + if/else -> let = if-expression: The common tail of inverse_continuing and inverse_continuing_5dof (normalize every angle ne'),
+    ('R10-5', 'DIFF', 'R_C10_5.diff', None, ALL, 'extract helper function / temporaries removed / iter()->into_iter() with destructuring: The forward-kinematics + f64->f32 cast of the six joint poses, repeated in RobotBody::collision_details, collide'),
+    ('R10-6', 'DIFF', 'R_C10_6.diff', None, ALL, 'loop -> iterator collect; if-let/else-if chain with returns -> Option combinators (or_else / unwrap_or_else); Self; merged integer comparison: SafetyDistances::distances builds the map with pairs.iter'),
+    ('R10-7', 'DIFF', 'R_C10_7.diff', None, ALL, 'if/else-if chain -> match on enum; guard clause / early return; if-else Some/None -> bool::then; closure inverted (De Morgan) and written as match: process_collision_tasks dispatches with `match` over'),
+    ('R10-8', 'DIFF', 'R_C10_8.diff', None, ALL, 'index loops with push -> iterator chains (zip/enumerate/rev/filter/map) with Vec::extend; filter condition folded into range bound: In detect_collisions_with_skips the pair enumeration per joint is re'),
+    ('R12-5', 'DIFF', 'R_C12_5.diff', None, ALL, 'match -> guard clause in a named closure; Option<Result> + unwrap_or_else -> Option + ok_or_else; Arc<AtomicBool> -> plain AtomicBool (data carried differently): Cartesian::plan: the per-strategy body'),
+    ('R12-6', 'DIFF', 'R_C12_6.diff', None, ALL, 'loops -> iterator chains / slice patterns (take(len-1) -> split_last, enumerate + index test -> split_last, while-let over windows -> for), temporaries, redundant clone() removed: Cartesian::probe_str'),
+    ('R12-7', 'DIFF', 'R_C12_7.diff', None, ALL, 'extract helper method; mutable success flag + break loop -> find_map; if !success -> let-else guard: Cartesian::probe_strategy: the RRT gap closing (try the IK solutions of the target pose best-first '),
+    ('R12-8', 'DIFF', 'R_C12_8.diff', None, ALL, 'for loop with early return -> Iterator::find with a predicate closure; if/else -> inverted guard clause with early return; chain().collect() -> extend in place; clone() -> Copy deref: Cartesian::step_'),
+    ('R13-5', 'DIFF', 'R_C13_5.diff', None, ALL, 'guard clauses / early return inversion, match -> matches!, while-let loop -> iter::successors chain, temporaries introduced: src/path_plan/rrt_to.rs Tree methods: add_vertex builds the point Vec once '),
+    ('R13-6', 'DIFF', 'R_C13_6.diff', None, ALL, 'extract helper function + helper method, match -> Option/if-let, reverse/append -> iterator rev/chain/collect: src/path_plan/rrt_to.rs dual_rrt_connect: new ExtendStatus::new_index() turns Advanced/Re'),
+    ('R13-7', 'DIFF', 'R_C13_7.diff', None, ALL, 'closures -> extracted associated functions, iterator map/collect + and_then -> ? and for loop, manual indexing -> TryFrom<Vec>, temporaries removed: src/path_plan/rrt.rs RRTPlanner::plan_path / conver'),
+    ('R13-8', 'DIFF', 'R_C13_8.diff', None, ALL, 'inline helper (add_edge folded into add_vertex, parent carried at node creation), extract helper functions (distance, steer), iterator chain -> for loop with push, if/else -> early return: src/path_pl'),
+    ('R14-5', 'DIFF', 'R_C14_5.diff', None, ALL, 'extract helper functions (duplicated code folded into private methods): src/collisions.rs: the forward-kinematics + cast-to-f32 preamble repeated in RobotBody::collision_details, collides, near and in'),
+    ('R14-6', 'DIFF', 'R_C14_6.diff', None, ALL, 'temporary Vec removed: nested loops -> parallel index range with div/mod decoding; copy-and-assign -> array::from_fn: src/collisions.rs, RobotBody::non_colliding_offsets: the Vec of 12 (joint_index, t'),
+    ('R14-7', 'DIFF', 'R_C14_7.diff', None, ALL, 'extract accessor helper + introduce temporaries; for/push loop -> into_iter().filter().collect(): src/kinematics_with_shape.rs: new private KinematicsWithShape::plain_kinematics() returning &*self.kin'),
+    ('R14-8', 'DIFF', 'R_C14_8.diff', None, ALL, 'control flow: nested if-let / early returns -> Option combinators (is_some_and, then_some); if/else-if chain -> match; De Morgan inversion of a predicate: src/collisions.rs: in the non_colliding_offse'),
+    ('R19-5', 'DIFF', 'R_C19_5.diff', None, ALL, 'Option combinators -> match on the enum variant; repeated call expression -> local closure: read_number now matches on the Yaml variant (Real -> as_f64(), Integer -> cast, anything else -> None) and t'),
+    ('R19-6', 'DIFF', 'R_C19_6.diff', None, ALL, 'iterator chain with collect::<Result<Vec,_>> -> explicit for loop with early returns; default Vec -> let-else early return; Vec push/try_into -> fixed array + copy_from_slice: read_offsets: a missing '),
+    ('R19-7', 'DIFF', 'R_C19_7.diff', None, ALL, 'Vec + push + length checks + try_into().unwrap() -> slice patterns; closure -> nested helper fn; default Vec -> early return: read_sign_corrections: a missing / non-array node returns Ok([1; 6]) direc'),
+    ('R19-8', 'DIFF', 'R_C19_8.diff', None, ALL, 'if-let / else with duplicated error closure -> match producing (text, flag) tuple + single let-else parse; Result combinators -> early return: parse_degrees: the deg(...) detection yields a tuple (tex'),
+    ('R20-5', 'DIFF', 'R_C20_5.diff', None, ALL, 'Vec + len/index match -> lazy iterator filter with Option-pair match (temporary collection removed): Vector3::non_zero in src/urdf.rs no longer pushes the non-zero components into a Vec and matches on'),
+    ('R20-6', 'DIFF', 'R_C20_6.diff', None, ALL, 'closure helper extracted, slice pattern instead of len check + indexing, map/transpose match -> if-let + match: get_limits reads both bounds through one local closure read_bound(name) (attribute looku'),
+    ('R20-7', 'DIFF', 'R_C20_7.diff', None, ALL, 'duplicate code replaced by calls to existing methods (delegation), map_err + ? replaced by match with early return: URDFParameters::to_robot no longer repeats the Parameters {..} literal and the Const'),
+    ('R20-8', 'DIFF', 'R_C20_8.diff', None, ALL, 'two duplicated nested fns hoisted into one module-level helper, float-literal tuple match -> if/else chain, else-after-return flattened, if/else assignment -> if-expression plus guard: In populate_opw'),
 ]
 KEEP += KEEP_AGENTS
 
